@@ -1,9 +1,12 @@
 """C20 - glam outputs satisfy glam preconditions; assertions never change results.
 
 Decided clauses: (R-SIB exact) for every reachable function the returned value and every value written through &mut arguments are the identical
-canonical terms with and without glam-assert (SSE2 and scalar-math), so enabling assertions can only add panics and their conditions are effect-free;
+canonical terms with and without glam-assert (SSE2, debug-glam-assert, scalar-math, core-simd, NEON, wasm32), so enabling assertions can only add panics and their conditions are effect-free;
 (R-PRECOND) every function whose rustdoc promises a panic "when glam_assert is enabled" gains at least one panic site in the assert build whose
-condition depends on the function's own operands, and functions without such a promise gain none that is undocumented; (R-GUARD) is_normalized is
+condition depends on the function's own operands, and functions without such a promise gain none that is undocumented; (R-PRECOND-DOC) every parameter
+the panic sentence names in backticks is tested by an assertion, and the boundary the sentence draws ("is negative", "less than or equal to zero",
+"greater than", "all elements ... are zero") is the one asserted - decided by substituting the boundary point into the asserted condition; (R-PRECOND-SIB)
+sibling types and the same function in other backends assert conditions of the same shape; (R-GUARD) is_normalized is
 |len^2 - 1| <= tau with one common tau per scalar width on every vector and quaternion type; (R-PRECOND-INT) every value glam computes itself and hands
 to a function with a normalisation precondition (axis of rotate_towards, rotation of to_scale_rotation_translation, ...) satisfies |len|^2 = 1 as a
 real identity (sqrt(p)^2 = p, sin^2 + cos^2 = 1, sign^2 = 1), branch by branch; (R-POST, rules/post.py) every rotation producer - quaternion
